@@ -8,6 +8,7 @@
    Transcriptions checked against the definitions by TLC for every input of a
    small word width W (the code is width-parametric):
      Newton's iteration of a_u32_sqrt / a_u64_sqrt with the start value 2^(bsr/2 + 1),
+     the digit-by-digit root compiled instead where no bit-scan intrinsic exists,
      Euclid's algorithm of a_u32_gcd / a_u64_gcd, lcm = a / gcd * b,
      the swap-halves bit reversal.                                           *)
 EXTENDS Integers, Sequences, FiniteSets, TLC
@@ -39,6 +40,18 @@ Next == Start \/ Loop \/ Test
 NewtonCorrect == pc = "done" => IsIsqrt(x, res)
 NoOverflow == x1 < 2 ^ (W + 1) /\ x0 < 2 ^ (W + 1)      \* intermediate values fit the word (plus the carry of the sum)
 StartAbove == pc = "loop" /\ x0 = 0 => x1 * x1 > x       \* the first iterate is above the root
+
+\* ---- the digit-by-digit root (the variant compiled where no bit-scan intrinsic exists): b starts at the highest power
+\* of four of the word, is lowered to the highest one not above x, and one result bit is decided per power of four
+RECURSIVE LowerB(_, _)
+LowerB(b, v) == IF b > v THEN LowerB(b \div 4, v) ELSE b
+RECURSIVE Digits(_, _, _)
+Digits(v, y, b) == IF b = 0 THEN y
+                   ELSE LET a == y + b  y2 == y \div 2 IN
+                        IF v >= a THEN Digits(v - a, y2 + b, b \div 4) ELSE Digits(v, y2, b \div 4)
+DigitRoot(v) == Digits(v, 0, LowerB(2 ^ (W - 2), v))
+DigitCorrect == \A v \in Word : IsIsqrt(v, DigitRoot(v))
+ASSUME W >= 2 /\ W % 2 = 0 => DigitCorrect        \* every word of the (even) model width, evaluated once
 
 \* ---- Euclid, lcm, bit reversal as operators (checked by ASSUME-style invariants over all words)
 RECURSIVE Euclid(_, _)
